@@ -1,9 +1,66 @@
 """map-subscription scenarios for C14 (generator + oracle)"""
 
 
-def gen_map(rng, thorough=False):
-    raise NotImplementedError
+def gen_map(rng, thorough=False, gen_payloads=None):
+    proto = rng.choice(["json", "pb"])
+    r = rng.random()
+    cf, sf = (1, 0) if r < 0.08 else (0, 1) if r < 0.14 else (1, 1) if r < 0.17 else (0, 0)
+    r = rng.random()
+    kind = "binary" if (proto == "pb" and r < 0.25) else "unicode" if r < 0.35 else "json"
+    P = gen_payloads(rng, proto, 0, rng.choice([4, 8, 14]), kind)
+    nkeys = rng.choice([1, 2, 4])
+    nops = rng.choice([8, 16, 30]) if not thorough else rng.choice([8, 16, 30, 60])
+    ops = []
+    subscribed = False
+    ever = False
+
+    def tag():
+        return 3 if not (cf or sf) else rng.choice([3, 3, 3, 2, 1, 0])
+    for _ in range(rng.randint(1, 4)):
+        ops.append(f"p{rng.randrange(len(P))}.{rng.randrange(nkeys)}.{tag()}.1")
+    for _ in range(nops):
+        r = rng.random()
+        if not subscribed:
+            if r < 0.5:
+                ops.append("R" if (ever and rng.random() < 0.7) else "S")
+                subscribed = ever = True
+            elif r < 0.9:
+                ops.append(f"p{rng.randrange(len(P))}.{rng.randrange(nkeys)}.{tag()}.{1 if rng.random() < 0.9 else 0}")
+            else:
+                ops.append(f"x{rng.randrange(nkeys)}")
+        else:
+            if r < 0.72:
+                ops.append(f"p{rng.randrange(len(P))}.{rng.randrange(nkeys)}.{tag()}.{1 if rng.random() < 0.9 else 0}")
+            elif r < 0.82:
+                ops.append(f"x{rng.randrange(nkeys)}")
+            else:
+                ops.append("U")
+                subscribed = False
+    return {"type": "mp", "proto": proto, "cf": cf, "sf": sf, "psize": rng.choice([1, 2, 100]), "P": P, "ops": ops,
+            "kind": kind}
 
 
 def oracle_map(sc, body, extra):
-    return []
+    """every delivery of a map subscription reconstructs the payload published at that offset"""
+    if body.startswith("PANIC"):
+        return [("panic in the implementation: " + body, {"kind": "panic"})]
+    if "codec-hypothesis-violated" in extra:
+        return [("fdelta.Apply(b, fdelta.Create(b, t)) != t for payload pair " + extra["codec-hypothesis-violated"],
+                 {"kind": "codec-hypothesis"})]
+    res = []
+    why = [w for w in extra.get("why", "").split(",") if w]
+    filters = bool(sc["cf"] or sc["sf"])
+    for w in why:
+        _, tok, reason = w.split(":", 2)
+        if sc["proto"] == "json" and "replacement-char-in-patch" in reason:
+            res.append(("JSON protocol: the fossil patch is not valid UTF-8; json.Escape replaced the bytes by U+FFFD and "
+                        f"the client cannot apply the delta (map delivery {tok}: {reason})",
+                        {"kind": "json-escape-corrupts-patch", "proto": "json"}))
+        elif filters and tok.startswith("D"):
+            res.append(("map subscription with a tags filter: a live/recovered delta is built against a value of the key "
+                        f"that the filter withheld from the client (delivery {tok}: {reason})",
+                        {"kind": "map-delta-against-filtered-value", "filters": True}))
+        else:
+            res.append((f"map delivery {tok} could not be reconstructed by the client ({reason})",
+                        {"kind": "map-chain", "filters": filters, "delta": tok.startswith("D")}))
+    return res
